@@ -407,12 +407,14 @@ func explore(t *testing.T, e Engine, spec Spec, enc *json.Encoder, w *bufio.Writ
 		if sum.Runs%2000 == 0 {
 			runtime.GC()
 		}
-		if sum.Runs%256 == 0 {
+		if sum.Runs%256 == 0 || simrt.RaceEnabled && sum.Runs%32 == 0 {
 			// goroutines of aborted runs that are blocked inside the runtime can never be reclaimed
-			// (their bubble is dead): hand over to a fresh process before memory gets out of hand
+			// (their bubble is dead): hand over to a fresh process before memory gets out of hand.
+			// In a race-detector build most of what they hold is the detector's own per-goroutine state,
+			// which the Go runtime's statistics do not see: there the resident set size decides.
 			var ms runtime.MemStats
 			runtime.ReadMemStats(&ms)
-			if ms.Sys > memLimit() {
+			if ms.Sys > memLimit() || simrt.RaceEnabled && rssBytes() > 2*memLimit() {
 				sum.Restart = true
 				break
 			}
@@ -433,6 +435,23 @@ func explore(t *testing.T, e Engine, spec Spec, enc *json.Encoder, w *bufio.Writ
 	}
 	enc.Encode(&sum)
 	w.Flush()
+}
+
+// rssBytes is the resident set size of this process (0 if it cannot be read).
+//
+//go:norace
+func rssBytes() uint64 {
+	b, err := os.ReadFile("/proc/self/statm")
+	if err != nil {
+		return 0
+	}
+	f := strings.Fields(string(b))
+	if len(f) < 2 {
+		return 0
+	}
+	var pages uint64
+	fmt.Sscan(f[1], &pages)
+	return pages * uint64(os.Getpagesize())
 }
 
 //go:norace
